@@ -5,8 +5,10 @@ package benchfmt
 import (
 	"bufio"
 	"fmt"
+	"math"
 	"reflect"
 	"sort"
+	"strconv"
 	"strings"
 
 	mc "golang.org/x/perf/internal/verifmc"
@@ -107,6 +109,30 @@ func histLines(alpha []string, hist []int) []string {
 	for i, h := range hist {
 		out[i] = alpha[h]
 	}
+	return out
+}
+
+// valueLattice is a deterministic finite set of float64 values chosen for
+// number formatting/parsing shortcuts: the ±n-ulp neighbourhoods of every
+// power of ten from 1e-7 to 1e23 (%v switches notation at 1e-4 and 1e21),
+// k/997·10^j (16–17 significant digits), powers of two around 2^53, and the
+// special values.
+func valueLattice(n int, kmax int) []float64 {
+	var out []float64
+	for e := -7; e <= 23; e++ {
+		p, _ := strconv.ParseFloat(fmt.Sprintf("1e%d", e), 64)
+		out = append(out, mc.UlpNeighbourhood(p, n)...)
+		out = append(out, mc.UlpNeighbourhood(3*p, n/4)...)
+	}
+	for k := 1; k <= kmax; k++ {
+		for _, j := range []float64{1e-3, 1, 1e3, 1e9, 1e17} {
+			out = append(out, float64(k)/997*j)
+		}
+	}
+	for e := 50; e <= 64; e++ {
+		out = append(out, mc.UlpNeighbourhood(math.Ldexp(1, e), 8)...)
+	}
+	out = append(out, 0, math.Copysign(0, -1), math.Inf(1), math.Inf(-1), math.NaN(), 5e-324, math.MaxFloat64, -1.5, 203.18687664732286, 360.87141685690597)
 	return out
 }
 
